@@ -6,6 +6,7 @@ pub mod c11;
 pub mod c13;
 pub mod c16;
 pub mod c17;
+pub mod c20;
 pub mod echo_gen;
 
 use crate::exec::{run_plan, Outcome, HEALTH_NONCE, LIVENESS_MS};
@@ -134,6 +135,7 @@ pub fn scenario(name: &str) -> Option<Box<dyn Scenario>> {
         "C13" => Some(Box::new(c13::C13)),
         "C16" => Some(Box::new(c16::C16)),
         "C17" => Some(Box::new(c17::C17)),
+        "C20" => Some(Box::new(c20::C20)),
         _ => None,
     }
 }
